@@ -125,5 +125,34 @@ theorem substrSpec_infix (cs : List String) (offset length : Int) : substrSpec c
   · exact (List.drop_suffix _ _).isInfix
   · exact (List.take_prefix _ _).isInfix.trans (List.drop_suffix _ _).isInfix
 
+@[simp] theorem asString_sv (s : String) : asString (sv s) = .ok s := by
+  simp [asString, Value.isMarked, Payload.isMarked, Ty.isString]
+
+/-- the date verbs never panic -/
+theorem verbText_no_panic (t : Time) (c : Char) (n : Nat) : (verbText t c n).isPanic = false := by
+  unfold verbText
+  repeat' split
+  all_goals rfl
+
+theorem tokenText_no_panic (t : Time) (tok : List Char) : (tokenText t tok).isPanic = false := by
+  unfold tokenText
+  split
+  · rfl
+  · repeat' split
+    all_goals first | rfl | exact verbText_no_panic _ _ _
+
+theorem formatTokens_no_panic (t : Time) (toks : List (List Char)) (buf : String) :
+    (formatTokens t toks buf).isPanic = false := by
+  induction toks generalizing buf with
+  | nil => rfl
+  | cons tok rest ih =>
+    simp only [formatTokens]
+    have h := tokenText_no_panic t tok
+    cases hx : tokenText t tok with
+    | ok s => simp [ih]
+    | err c => rfl
+    | panic w => rw [hx] at h; simp [Res.isPanic] at h
+    | unmodelled => rfl
+
 end Stdlib
 end CtyModel
